@@ -544,6 +544,81 @@ pub fn work(env: &Env, ctx: &Ctx, w: usize, nw: usize, plan: &Plan) -> Value {
         }
     }
 
+    // 3b. an intact actions file to which the user added items that syn 1.0 /
+    //     prettyplease 0.1 may not be able to represent or print
+    const EXOTIC: &[&str] = &[
+        "fn decl_only();",
+        "/// Документација корисника која је довољно дугачка да пресек на шездесет бајтова падне усред знака\npub fn decl_with_docs(a: u8) -> u8;",
+        "mod nested { fn decl_in_mod(); }",
+        "mod nested2 { /// Ünïcödé documentation that is long enough to be cut in the middle of a character, maybe\n pub fn f(); }",
+        "pub fn uses_let_else(x: Option<u8>) -> u8 { let Some(y) = x else { return 0 }; y }",
+        "impl UserType { fn assoc_decl(); }",
+        "pub trait UserTrait { fn h(); type A; const C: u8; }",
+        "extern \"C\" { fn e(); static S: u8; }",
+        "static NO_VALUE: u8;",
+        "type NoDefinition;",
+        "const _: () = { let _x = 1; };",
+        "pub macro decl_macro_2($x:expr) { $x }",
+        "auto trait AutoT {}",
+        "pub fn r#type() {}",
+        "pub struct Ünï { pub ö: u8 }",
+        "pub fn generic_const<const N: usize>(a: [u8; N]) -> usize { N }",
+        "pub fn closure_async() { let _ = async move { 1 }; }",
+        "pub fn inline_const() -> u8 { const { 1 + 1 } }",
+        "pub fn labeled() { 'a: loop { break 'a; } }",
+        "pub fn if_let_chain(a: Option<u8>) -> bool { if let Some(x) = a && x > 1 { true } else { false } }",
+        "#![allow(dead_code)]",
+        "//! inner doc comment in the middle of the file",
+        "pub fn half_open(r: u8) -> bool { matches!(r, 1..) }",
+        "pub unsafe extern \"C\" fn ffi(_: ...) {}",
+        "impl<T> !Send for W<T> {}",
+        "default impl<T> Tr for T {}",
+    ];
+    for (gi, g) in ctx.corpus.iter().enumerate().filter(|(_, g)| g.bytes.len() <= 5 * 1024) {
+        counter += 1;
+        if !mine(counter) {
+            continue;
+        }
+        if !plan.thorough && gi % 6 != 0 {
+            continue;
+        }
+        let mut spec = Spec::lr_default();
+        spec.force = true;
+        let case0 = Case { grammar: g.clone(), damage: "none".into(), spec: spec.clone(), world: World::reference(), actions: None };
+        let o0 = run_case(env, &case0);
+        let actions = match o0.file(&format!("{}_actions.rs", g.stem)) {
+            Some(a) if o0.class == Class::Ok => a,
+            _ => continue,
+        };
+        spec.force = false;
+        // the documented declaration in several alignments: whatever fixed byte
+        // offset a diagnostic cuts at, one variant has a multi-byte char there
+        let mut items: Vec<String> = EXOTIC.iter().map(|s| s.to_string()).collect();
+        for pad in 1..4 {
+            items.push(format!("/// {}Документацијакорисникакојаједовољнодугачкадапресекпаднеусредзнакабилогдедасеон\npub fn decl_aligned_{pad}(a: u8) -> u8;", "x".repeat(pad)));
+            items.push(format!("/// {}→→→→→→→→→→→→→→→→→→→→→→→→→→→→→→→→→→→→→→→→→→→→→→→→\npub fn decl_arrows_{pad}();", "y".repeat(pad)));
+        }
+        for (k, ex) in items.iter().enumerate() {
+            let ex = ex.as_str();
+            for at_start in [false, true] {
+                let mut b = vec![];
+                if at_start {
+                    b.extend_from_slice(ex.as_bytes());
+                    b.push(b'\n');
+                    b.extend_from_slice(&actions);
+                } else {
+                    b.extend_from_slice(&actions);
+                    b.push(b'\n');
+                    b.extend_from_slice(ex.as_bytes());
+                    b.push(b'\n');
+                }
+                let case = Case { grammar: g.clone(), damage: format!("actions file with user item #{k} {} ({})", if at_start { "prepended" } else { "appended" }, ex.chars().take(40).collect::<String>()), spec: spec.clone(), world: World::reference(), actions: Some(b) };
+                let o = run_case(env, &case);
+                record(ctx, &mut st, &case, "actions-file-user-item", &o, counter, &mut viol);
+            }
+        }
+    }
+
     // 4. syscall failure enumeration: every I/O event of the workload x every
     //    errno legal for its call class
     for (gi, g) in ctx.corpus.iter().enumerate().filter(|(_, g)| g.bytes.len() <= 5 * 1024).take(plan.syscall_grammars) {
